@@ -26,11 +26,14 @@ CHECKS.update({
     "C03": ("Hypothesis generated search + exhaustive integer-grid sweep against literal interval-membership model",
             GEN + "values are placed on, one grid step beside and far from all bounds; suspect spans outside the fail span "
             "must raise ValueError; all spans over {0..4}^2x{0..4}^2 and all valid_range bound/inclusivity combinations "
-            "are enumerated.", GRID + "valid_range_test gets ndarrays whose dtype matches its bounds, lower<=upper", "DESIGN.md 4 C03"),
+            "are enumerated.", GRID + "valid_range_test gets float, signed / unsigned integer (fractional or absent bounds, dtype= given or not) "
+            "and datetime64 ndarrays (bounds finer or coarser than the data, 'open ended' far-away dates), lower<=upper; "
+            "magnitudes up to 2^40", "DESIGN.md 4 C03, 11.5 rounds 5-7"),
     "C04": ("Hypothesis generated search + exhaustive alphabet sweep; pointwise precedence model + algebraic laws",
             "Every generated tuple of flag vectors (uint8/int64/float64, plain or masked with flag-valued junk under the "
             "mask, non-flag values) is compared with a pointwise precedence model and checked for permutation / "
-            "duplication invariance, idempotence, associativity over a split, and aggregate()==qartod_compare; every "
+            "duplication invariance, idempotence, associativity over a split, aggregate(result objects of real test "
+            "functions) and the PandasStore.compute_aggregate() roll-up over interleaved streams == the model; every "
             "tuple of <=3 vectors of length <=2 over {1,2,3,4,9,0,7,masked} is enumerated (thorough).",
             "vectors are equal-length 1-d numpy arrays as the function asserts", "DESIGN.md 4 C04"),
     "C08": ("Hypothesis generated search + exhaustive calendar-day sweep against a literal last-match-wins model",
@@ -46,7 +49,7 @@ CHECKS.update({
     "C11": ("Hypothesis generated search + exhaustive small-alphabet sweep against a per-point window model",
             GEN + "durations include non-multiples of the step, shorter than a step and longer than the series; "
             "tolerances on and beside the window ranges present; all series of length <=7 over {0,0.5,1,missing} are "
-            "enumerated with 25 duration pairs and 4 tolerances.", GRID + "regular sampling (premise of the statement)",
+            "enumerated with 25 duration pairs and 4 tolerances.", GRID + "regular sampling (premise of the statement), steps from 1 s to a week",
             "DESIGN.md 4 C11"),
     "C12": ("Hypothesis generated search against a per-point trailing-window model",
             GEN + "all 8 mode combinations (std/range x none/period/min_obs/min_period), periods exactly equal to point "
